@@ -40,7 +40,7 @@ def rule_sort_axis(ctx):
                          node=p.node, witness=['guards: ' + ', '.join('%s=%s' % (T.show(a)[:70], b) for a, b in p.guards)])
             continue
         ii = v[2][0]
-        none = [pol for a, pol in p.guards if a == ('cmp', 'is', KEY, T.CONST_NONE)]
+        none = [pol for a, pol in p.guards if a == T.mkcmp('is', KEY, T.CONST_NONE)]
         if none == [True]:
             good = ii == ('call', ('attr', labels, 'argsort'), (), (('kind', KIND),)) or ii == ('call', ('attr', labels, 'argsort'), (), ())
             why = 'without key the permutation is the argsort of the labels of the resolved axis (ascending)'
@@ -87,7 +87,7 @@ def rule_compress(ctx):
             continue
         newax = ('sub', ('sub', ('attr', SELF, 'axes'), pos), BOOL)
         oka = axes[0] == 'comp' and axes[2][0] == 'ifexp' and axes[2][3] == newax and axes[2][2] == ('elem', ('attr', SELF, 'axes'), axes[3][0][0]) \
-            and axes[2][1] == ('cmp', '!=', ('attr', axes[2][2], 'name'), dim)
+            and axes[2][1] == T.mkcmp('!=', ('attr', axes[2][2], 'name'), dim)
         if not oka:
             ctx.violated('R2', fi, 'axes = ' + T.show(axes)[:160], 'the compressed axis is self.axes[pos][boolarray] (same mask, same position), placed by the name of the same resolution',
                          node=p.node)
@@ -123,23 +123,23 @@ def rule_dropna(ctx):
         k = T.kw(fl, 'insert')
         nans_src = T.call_receiver(fl)
         okf = k is not None and k[0] == 'const' and nans_src == ('call', ('name', '_isnan'), (SELF,), (('na', NA),)) and fl[2] and fl[2][0][0] == 'comp' \
-            and fl[2][0][3][0][1] == ('attr', SELF, 'dims') and fl[2][0][3][0][2] == (('cmp', '!=', fl[2][0][2], name),)
+            and fl[2][0][3][0][1] == ('attr', SELF, 'dims') and fl[2][0][3][0][2] == (T.mkcmp('!=', fl[2][0][2], name),)
         if not okf:
             ctx.violated('R3', fi, T.show(fl)[:140], 'the NaN mask of the array is flattened over all dimensions except the resolved one, at a constant position k', node=p.node)
             continue
         count = ('call', ('attr', fl, 'sum'), (), (('axis', k),))
         size = ('attr', ('sub', ('attr', fl, 'axes'), k), 'size')
-        none = [pol for a, pol in p.guards if a == ('cmp', 'is', MINV, T.CONST_NONE)]
+        none = [pol for a, pol in p.guards if a == T.mkcmp('is', MINV, T.CONST_NONE)]
         if not none:
             truthy = [a for a, pol in p.guards if a == MINV]
             ctx.violated('R3', fi, 'minvalid test', 'the default must be recognised with `minvalid is None`: a truthiness test treats an explicit minvalid=0 (keep every label) '
                          'like the default (no NaN allowed)', node=p.node, witness=['guards: ' + ', '.join('%s=%s' % (T.show(a)[:60], b) for a, b in p.guards)])
             continue
         if none == [True]:
-            want = ('cmp', '<=', count, const(0))
+            want = T.mkcmp('<=', count, const(0))
             seen_none = True
         else:
-            want = ('cmp', '<=', count, ('binop', '-', size, MINV))
+            want = T.mkcmp('<=', count, ('binop', '-', size, MINV))
             seen_given = True
         if mask != want:
             alt_ok = mask[0] == 'cmp' and mask[1] == '<=' and mask[2] == count and T.affine_eq(mask[3], want[3])
@@ -163,7 +163,7 @@ def rule_dropna(ctx):
     f = ctx.fn(MV + '_isnan')
     ev = run(ctx, f)
     oki = any(p.value == ('call', ('attr', ('name', 'np'), 'isnan'), (P_('a'),), ()) for p in ret_paths(ev)) and \
-        any(p.value == ('cmp', '==', P_('a'), P_('na')) for p in ret_paths(ev))
+        any(p.value == T.mkcmp('==', P_('a'), P_('na')) for p in ret_paths(ev))
     if not oki:
         ctx.violated('R3', f, '_isnan', '_isnan(a, na) is np.isnan(a) for na=NaN and a == na otherwise')
 
@@ -203,7 +203,7 @@ def rule_fill(ctx):
         elif it == [True]:
             kinds['iterable'] = v[0] == 'call' and T.dotted(v[1]) == 'np.any' and T.kw(v, 'axis') == const(0) and '_matches' in T.show(v)
         else:
-            kinds['scalar'] = v == ('cmp', '==', A, VAL)
+            kinds['scalar'] = v == T.mkcmp('==', A, VAL)
     if kinds == {'bool': True, 'iterable': True, 'scalar': True}:
         ctx.holds('R4', '_matches total: boolean array / iterable (any over members) / scalar (a == value)')
     else:
